@@ -87,10 +87,17 @@ class Runner(object):
             return
         orig = FIU.all_store_paths.__func__
 
+        depth = [0]
+
         def all_store_paths(cls, fi):
-            r = orig(cls, fi)
+            depth[0] += 1
+            try:
+                r = orig(cls, fi)
+            finally:
+                depth[0] -= 1
             runner_holder = getattr(api, "_verif_runner", None)
-            if runner_holder is not None:
+            if runner_holder is not None and depth[0] == 0:
+                # only the outermost call is the evaluation's path map (the function is recursive)
                 runner_holder.captured_paths = OrderedDict(r)
                 runner_holder.captured_fis = fi
             return r
